@@ -322,6 +322,7 @@ func (a *Analysis) step(st *State, fr *frame, in ssa.Instruction) {
 		// keep tracking it: local allocs stored into locals are common.
 	case *ssa.MapUpdate:
 		st.killClass("M:"+typeKey(x.Map.Type()), siteTok(fr, x))
+		st.event("mapupdate")
 	case *ssa.Send:
 		st.event("send:" + chanName(a.exprOf(st, fr, x.Chan)))
 	case *ssa.Go:
